@@ -20,5 +20,15 @@ func VerifIssueWindow(parent *Certificate, child *Identity, t CertificateType, f
 	return issue(&p, child, t, from, to.Sub(from))
 }
 
+// VerifIssueForged signs a child with signer's key while the child NAMES namedParent as its parent (its
+// fingerprint goes into the Parent field): what somebody with a key of their own produces in order to hang a
+// certificate under a trusted one.  The signing itself is the real routine.
+func VerifIssueForged(signer, namedParent *Certificate, child *Identity, t CertificateType, from, to time.Time) (*Certificate, error) {
+	p := *signer
+	p.Fingerprint = namedParent.Fingerprint
+	p.IssuedAt, p.ExpiresAt = from, to
+	return issue(&p, child, t, from, to.Sub(from))
+}
+
 // VerifSetKey attaches a signing key to a certificate of any type.
 func VerifSetKey(c *Certificate, private *[KeyLen]byte) { c.privateKey = private }
